@@ -12,7 +12,7 @@ use crate::refs::wrap::GzFields;
 pub const INFO: CheckInfo = CheckInfo {
     prop: "C16",
     level: "model_checking",
-    rule: "explicit enumeration of ALL programs up to a depth over the exported entry points with small argument domains, executed in lock-step on libz-rs-sys and on zlib-ng 2.3.3 (R6): compression side = C06's 47-operation alphabet incl. illegal init parameters (level -2/10, method 7, windowBits 7/16/32/47, memLevel 0/10, strategy 5/-1) and deflatePrime at any point; decompression side = {inflate (5 flush values x {all input, 1 byte, none} x {ample, 1, 0 bytes of room}), inflatePrime ((0,0),(3,5),(16,0x1234),(16,-1),(17,0),(-1,0)), inflateSync, inflateSyncPoint, inflateValidate(0/1), inflateUndermine(1/-1), inflateResetKeep, inflateReset, inflateReset2 (-15,31,47,7,0), inflateGetHeader, inflateSetDictionary (right/wrong), inflateGetDictionary, inflateCopy (continue on copy / end copy), inflateCodesUsed, inflateEnd} after inflateInit2 over {15,-15,31,47,0,-8,8,7,16,48,-16} on five data sets (valid zlib, valid gzip with header fields, raw, corrupt, zlib with FDICT, empty); one-shot helpers compress/compress2/uncompress/uncompress2 on size lattices; NULL stream / NULL buffer arguments where zlib defines the result. After every call: same return code, same input consumed, same output bytes produced; the process must never terminate. zlib-ng is run first in a forked child (pre-screen): programs on which the reference itself crashes are counted as skipped_ng_ub. Family params-rooms: deflateInit2 (10 levels x 5 strategies) ; deflate (5 sizes, no flush / sync flush) ; deflateParams (6 new settings) with 12 output rooms (0..=9, 64, ample) x {0, 5} new input bytes ; deflate(Z_FINISH), every call compared. Family tune-matrix: deflateTune with 26 C-int values (INT_MIN..INT_MAX) for each parameter and for all four x 9 levels x 2 strategies, then one deflate(Z_FINISH): statuses and compressed bytes. Not compared (as the property lists): totals after a dictionary request, inflateMark, dictionary length, message texts, inflateUndermine's own status, deflatePending/deflateBound values.",
+    rule: "explicit enumeration of ALL programs up to a depth over the exported entry points with small argument domains, executed in lock-step on libz-rs-sys and on zlib-ng 2.3.3 (R6): compression side = C06's 47-operation alphabet incl. illegal init parameters (level -2/10, method 7, windowBits 7/16/32/47, memLevel 0/10, strategy 5/-1) and deflatePrime at any point; decompression side = {inflate (5 flush values x {all input, 1 byte, none} x {ample, 1, 0 bytes of room}), inflatePrime ((0,0),(3,5),(16,0x1234),(16,-1),(17,0),(-1,0)), inflateSync, inflateSyncPoint, inflateValidate(0/1), inflateUndermine(1/-1), inflateResetKeep, inflateReset, inflateReset2 (-15,31,47,7,0), inflateGetHeader, inflateSetDictionary (right/wrong), inflateGetDictionary, inflateCopy (continue on copy / end copy), inflateCodesUsed, inflateEnd} after inflateInit2 over {15,-15,31,47,0,-8,8,7,16,48,-16} on five data sets (valid zlib, valid gzip with header fields, raw, corrupt, zlib with FDICT, empty); one-shot helpers compress/compress2/uncompress/uncompress2 on size lattices; NULL stream / NULL buffer arguments where zlib defines the result. After every call: same return code, same input consumed, same output bytes produced; the process must never terminate. zlib-ng is run first in a forked child (pre-screen): programs on which the reference itself crashes are counted as skipped_ng_ub. Family params-rooms: deflateInit2 (10 levels x 5 strategies) ; deflate (5 sizes, no flush / sync flush) ; deflateParams (6 new settings) with 12 output rooms (0..=9, 64, ample) x {0, 5} new input bytes ; deflate(Z_FINISH), every call compared. Family tune-matrix: deflateTune with 26 C-int values (INT_MIN..INT_MAX) for each parameter and for all four x 9 levels x 2 strategies, then one deflate(Z_FINISH): statuses and compressed bytes. Family validate-values: inflateValidate with 11 C-int values before the first call / after 1, 2, 12, 40 bytes, on intact streams and streams with a wrong check value. Not compared (as the property lists): totals after a dictionary request, inflateMark, dictionary length, message texts, inflateUndermine's own status, deflatePending/deflateBound values.",
     assumptions: &["zlib-ng 2.3.3 in compat mode is the reference", "decoding data whose back-references exceed the window announced to inflateInit2 is excluded (zlib-ng's small window makes its own verdict depend on chunking; zlib-rs always keeps 32 KiB, see C03)", "argument values outside the enumerated domains and deeper programs are not covered"],
     bound_quick: "compression: depth 3 over the full alphabet on 3 configs, depth 2 on 7 + all illegal configs depth 2; decompression: depth 3 over a 30-operation alphabet on 6 data sets x 3 init modes, depth 2 on the rest",
     bound_thorough: "compression depth 3 everywhere / depth 4 reduced alphabet; decompression depth 4 on the reduced alphabet",
@@ -1165,11 +1165,59 @@ fn tune_matrix(ctx: &mut Ctx) {
     }
 }
 
+/// inflateValidate with every interesting value of its C int argument (zlib: any non-zero value switches checking on),
+/// before the first inflate call or after the header, on valid streams and on streams whose trailer check value is
+/// wrong: same statuses, same data movement as the reference
+fn validate_values(ctx: &mut Ctx) {
+    let env = IEnv { ain: Arena::new(1 << 16), aout: Arena::new(1 << 17), aux: Arena::new(1 << 16), hdr: [Arena::new(4096), Arena::new(4096), Arena::new(4096)] };
+    let sets = datasets();
+    for ds in sets.iter().filter(|d| matches!(d.name, "zlib" | "gzip-plain" | "gzip+header" | "zlib+fdict")) {
+        let wb = if ds.name.starts_with("gzip") { 31 } else { 15 };
+        let mut bad_check = ds.bytes.clone();
+        let k = if wb == 31 { bad_check.len() - 6 } else { bad_check.len() - 2 };
+        bad_check[k] ^= 0x21;
+        let mut bad_len = ds.bytes.clone();
+        let k = bad_len.len() - 1;
+        bad_len[k] ^= 0x01;
+        for (vn, bytes) in [("intact", &ds.bytes), ("wrong check value", &bad_check), ("last byte changed", &bad_len)] {
+            for check in [i32::MIN, -256, -2, -1, 0, 1, 2, 4, 0x100, 0x10000, i32::MAX] {
+                for when in [0usize, 1, 2, 12, 40] {
+                    for wbv in [wb, 47] {
+                        ctx.case(
+                            "validate-values",
+                            || format!("data={} ({vn}) inflateInit2({wbv}) ; inflate({when} bytes) ; inflateValidate({check}) ; inflate(rest) ; inflate(Z_FINISH)", ds.name),
+                            |c| {
+                                let mut ops = vec![];
+                                if when > 0 {
+                                    ops.push(IOp::Inflate { flush: Z_NO_FLUSH, inn: when, room: AMPLE });
+                                }
+                                ops.push(IOp::Validate(check));
+                                ops.push(IOp::Inflate { flush: Z_NO_FLUSH, inn: usize::MAX, room: AMPLE });
+                                ops.push(IOp::Inflate { flush: Z_FINISH, inn: usize::MAX, room: AMPLE });
+                                c.exec();
+                                let a = run_iops::<Rs>(wbv, bytes, &ds.dict, &ops, &env, false, 0xA5)?;
+                                let b = run_iops::<Ng>(wbv, bytes, &ds.dict, &ops, &env, false, 0x00)?;
+                                if a != b {
+                                    return Err(format!("status codes / data movement differ from zlib-ng: zlib-rs {} ; zlib-ng {}", decode_log(&a), decode_log(&b)));
+                                }
+                                c.outcome(hash_bytes(&a));
+                                c.validated();
+                                Ok(())
+                            },
+                        );
+                    }
+                }
+            }
+        }
+    }
+}
+
 pub fn run(ctx: &mut Ctx) {
     let env = OpEnv::new();
     init_matrix(ctx);
     params_rooms(ctx);
     tune_matrix(ctx);
+    validate_values(ctx);
     deflate_side(ctx, &env);
     inflate_side(ctx);
     one_shots(ctx);
